@@ -25,6 +25,14 @@ def f32Lt (u v : Nat) : Bool := !f32IsNan u && !f32IsNan v && decide (f32Key u <
 /-- `float(a) < float(b)` for two half patterns, as the C++ evaluates `a < b` -/
 def halfLt (a b : Nat) : Bool := f32Lt (h2f a) (h2f b)
 
+/-- class of a binary32 pattern as `std::fpclassify` names it: 0 zero, 1 normal,
+2 subnormal, 3 infinite, 4 nan (what `drv_half classf_all` prints next to the
+half classification; compared with the platform's `std::fpclassify (float (h))`) -/
+def fpClass32 (u : Nat) : Nat :=
+  if (u / 8388608) % 256 = 0 then (if u % 8388608 = 0 then 0 else 2)
+  else if (u / 8388608) % 256 = 255 then (if u % 8388608 = 0 then 3 else 4)
+  else 1
+
 /-- constructor arguments of `halfFunction<T>` -/
 structure Params (T : Type) where
   f : Nat → T
